@@ -17,6 +17,7 @@ from ..cfg import explore, must_facts, canon_fact, holds
 from ..rules import call_sites, node_calls, require_after, event_facts
 from ..mutate import mutate, remove_stmts, replace_stmt, replace_expr, parse_stmt, parse_expr
 from ..model import AnalysisError
+from ..x_flow import resolve_local, unique_def, expanded_facts
 
 TECHNIQUE = "lock-discipline lint (guarded-by, wait-in-loop with folded wake predicate, notify-after-write) + ordering typestate on the CFG + who-may-call / thread-confinement ownership rules"
 EXPLANATION = (
@@ -251,7 +252,7 @@ def rule_notify(ck, N):
             else:
                 require_after(ck, "C40.notify-after-write", fi, lambda n, ids=ids: n.id in ids, node_calls(cond + ".notify", cond + ".notify_all"),
                               "write of %s.%s is followed by %s.notify() on every normal path (otherwise the selector thread sleeps through it)" % (base, attr, cond))
-    ck.floor("C40.notify-after-write", cnt, 3, "waking writes (hand-off, close, atexit)")
+    ck.floor("C40.notify-after-write", cnt, 2, "waking writes (hand-off, shutdown request)")
 
 
 BLOCKING = ("select.select", ".join", "time.sleep", ".recv", ".accept", ".run_until_complete", ".result")
@@ -485,10 +486,11 @@ def rule_snapshot(ck, N):
         if attr != SLOT:
             continue
         cnt += 1
-        v = node.ast.value
+        v = resolve_local(h, node.ast.value)
         if not (isinstance(v, ast.Tuple) and len(v.elts) == 2):
             raise AnalysisError("hand-off value in %s is not a 2-tuple literal: unknown idiom" % h.qualname)
-        for i, (elt, mine, other, what) in enumerate(((v.elts[0], N["readers"], N["writers"], "read"), (v.elts[1], N["writers"], N["readers"], "write"))):
+        e0, e1 = resolve_local(h, v.elts[0]), resolve_local(h, v.elts[1])
+        for i, (elt, mine, other, what) in enumerate(((e0, N["readers"], N["writers"], "read"), (e1, N["writers"], N["readers"], "write"))):
             ment = {a.attr for a in ast.walk(elt) if isinstance(a, ast.Attribute)}
             ck.ob("C40.snapshot", h, elt, mine in ment and other not in ment, "element %d of the hand-off is built from self.%s only (%s set)" % (i, mine, what))
             copied = (isinstance(elt, ast.Call) and isinstance(elt.func, ast.Name) and elt.func.id in _COPY_FUNCS) or isinstance(elt, (ast.ListComp, ast.SetComp)) or (
@@ -574,9 +576,12 @@ def rule_dispatch(ck, N, run):
         for n in q.walk_body(h.node):
             if isinstance(n, ast.Assign) and (n.value in subs or n.value in gets):
                 cbnames |= {p for p in q.assigned_paths(n)}
+        hfacts = must_facts(h.cfg)
+        member = "%s in %s" % (fdp, mapp)
         for s in subs:
-            ck.ob("C40.removed-fd", h, s, q.protected_by(pm, s, "KeyError") is not None and q.dotted(s.slice) == fdp,
-                  "lookup of the fd tolerates a reader/writer removed between select and dispatch (KeyError handled)")
+            guarded = all(holds(hfacts[nd.id], member, True) for nd in h.cfg.nodes_for(s)) and bool(h.cfg.nodes_for(s))
+            ck.ob("C40.removed-fd", h, s, (q.protected_by(pm, s, "KeyError") is not None or guarded) and q.dotted(s.slice) == fdp,
+                  "lookup of the fd tolerates a reader/writer removed between select and dispatch (KeyError handled, or guarded by `fd in map`)")
         cbcalls = [(n, c) for n, c in h.cfg.find(lambda x: isinstance(x, ast.Call) and q.dotted(x.func) in cbnames)]
         ck.floor("C40.dispatch", len(cbcalls), 1, "callback invocations in %s" % hname)
         facts = must_facts(h.cfg)
@@ -590,9 +595,9 @@ def rule_dispatch(ck, N, run):
             cnt, via = v
             return (min(cnt + (1 if n.id in ids else 0), 2), via or n.id in hnd)
 
-        seen = explore(h.cfg, (0, False), tr, lambda t: t.endswith(" is None"), follow_exc=True, exc_effect=False)
+        seen = explore(h.cfg, (0, False), tr, lambda t: t.endswith(" is None") or t == member, follow_exc=True, exc_effect=False)
         for facts_, (cnt, via) in sorted(seen.get(h.cfg.exit.id, ()), key=repr):
-            absent = via or any(t.endswith(" is None") and pol for t, pol in facts_)
+            absent = via or any(t.endswith(" is None") and pol for t, pol in facts_) or (member, False) in facts_
             ck.ob("C40.dispatch", h, h.node, cnt == 1 or (cnt == 0 and absent), "the registered callback runs exactly once per reported fd (count=%d%s)" % (cnt, ", fd no longer registered" if absent else ""),
                   construct="callback count=%d absent=%s" % (cnt, absent))
 
@@ -647,17 +652,42 @@ def rule_waker(ck, N):
 
 def _order(ck, rule, fi, base, N, per_iteration=False, exit_need=None):
     """Ordering typestate for a shutdown sequence on object ``base``."""
-    cond = "%s.%s" % (base, N["cond"])
     thr = "%s.%s" % (base, N["thread"])
-    wsock, rsock = "%s.%s" % (base, N["waker_w"]), "%s.%s" % (base, N["waker_r"])
-    wake_name = "%s.%s" % (base, N["wake"].name)
-    ev = {
-        "flag": lambda n: n.kind == "stmt" and isinstance(n.ast, ast.Assign) and "%s.%s" % (base, FLAG) in q.assigned_paths(n.ast) and isinstance(n.ast.value, ast.Constant) and n.ast.value.value is True,
-        "notify": node_calls(cond + ".notify", cond + ".notify_all"),
-        "wake": node_calls(wake_name, wsock + ".send"),
-        "join": node_calls(thr + ".join"),
-        "sockclose": node_calls(wsock + ".close", rsock + ".close"),
-    }
+    # local aliases of the thread attribute (`t = self._thread`)
+    thr_names = {thr} | {nm for nm in q.local_names(fi.node) if unique_def(fi, nm) is not None and q.dotted(unique_def(fi, nm)) == thr}
+
+    def make_ev(b, thr_set):
+        cond = "%s.%s" % (b, N["cond"])
+        wsock, rsock = "%s.%s" % (b, N["waker_w"]), "%s.%s" % (b, N["waker_r"])
+        wake_name = "%s.%s" % (b, N["wake"].name)
+        return {
+            "flag": lambda n: n.kind == "stmt" and isinstance(n.ast, ast.Assign) and "%s.%s" % (b, FLAG) in q.assigned_paths(n.ast) and isinstance(n.ast.value, ast.Constant) and n.ast.value.value is True,
+            "notify": node_calls(cond + ".notify", cond + ".notify_all"),
+            "wake": node_calls(wake_name, wsock + ".send"),
+            "join": node_calls(*[t + ".join" for t in sorted(thr_set)]),
+            "sockclose": node_calls(wsock + ".close", rsock + ".close"),
+        }
+
+    ev0 = make_ev(base, thr_names)
+    # one-level summaries of private helpers of the class called on the same object: the events they perform on every normal path
+    summaries = {}
+
+    def helper_events(n):
+        if n.kind not in ("stmt", "test") or n.ast is None:
+            return set()
+        out = set()
+        for c in q.walk_local(n.ast):
+            if isinstance(c, ast.Call) and isinstance(c.func, ast.Attribute) and q.dotted(c.func.value) == base and c.func.attr != N["wake"].name and ck.repo.has_func(F, "%s.%s" % (CLS, c.func.attr)):
+                m = c.func.attr
+                if m not in summaries:
+                    h = ck.repo.func(F, "%s.%s" % (CLS, m))
+                    evh = make_ev("self", {"self." + N["thread"]})
+                    ef_ = event_facts(h, {k: p for k, p in evh.items() if k in ("flag", "notify", "wake")}, cond_facts=False, exc_gen=True)
+                    summaries[m] = {t[1:] for t, pol in ef_.get(h.cfg.exit.id, ()) if pol and t.startswith("@")}
+                out |= summaries[m]
+        return out
+
+    ev = {k: (lambda n, k=k, p=p: p(n) or k in helper_events(n)) if k in ("flag", "notify", "wake") else p for k, p in ev0.items()}
     closed = ["%s.%s" % (base, c) for c in sorted(N["closed"])]
     ev["closedflag"] = lambda n: n.kind == "stmt" and isinstance(n.ast, ast.Assign) and any(c in q.assigned_paths(n.ast) for c in closed) and not (isinstance(n.ast.value, ast.Constant) and n.ast.value.value is False)
     need = {
@@ -682,7 +712,7 @@ def _order(ck, rule, fi, base, N, per_iteration=False, exit_need=None):
     def edge(n, kind, val):
         if n.kind == "test" and kind in ("true", "false"):
             t, pol = canon_fact(n.ast, kind == "true")
-            if t == thr + " is None" and pol:
+            if any(t == x + " is None" for x in thr_names) and pol:
                 return val | {"join"}
         return val
 
@@ -725,7 +755,7 @@ def rule_shutdown(ck, N):
     # joins are unbounded: a join with a timeout lets close() return with the thread still running
     for f_ in (close, at):
         for c in q.calls(f_.node):
-            if isinstance(c.func, ast.Attribute) and c.func.attr == "join" and (q.dotted(c.func.value) or "").endswith("." + N["thread"]):
+            if isinstance(c.func, ast.Attribute) and c.func.attr == "join" and (q.dotted(resolve_local(f_, c.func.value)) or "").endswith("." + N["thread"]):
                 ck.ob("C40.shutdown-order", f_, c, not c.args and not c.keywords, "the selector thread is joined without a timeout (close returns only once it has stopped)")
     # the atexit send must tolerate a full pipe too
     pm = q.parent_map(at.node)
